@@ -283,6 +283,95 @@ fn inverse_transform<S: Sc>(d: &mut Draw) -> Outcome {
     pass(cls, t3.all_nonzero() && t4.all_nonzero())
 }
 
+
+/// native floats: `invert()` is None exactly when the (computed) determinant is zero, for determinants
+/// of every size: ordinary, subnormal, underflowed to zero, huge
+macro_rules! invert_native {
+    ($fname:ident, $F:ty, $sub_lo:expr, $sub_hi:expr, $under:expr, $huge:expr) => {
+        fn $fname(d: &mut Draw) -> Outcome {
+            type F = $F;
+            let n = d.int(2, 4) as usize;
+            // unimodular integer matrix: identity after a few integer column shears (det = 1, exact inverse)
+            let mut p = [[0i64; 4]; 4];
+            for i in 0..n {
+                p[i][i] = 1;
+            }
+            for _ in 0..d.int(0, 6) {
+                let (i, j) = (d.below(n), d.below(n));
+                if i != j {
+                    let c = d.nz_int(-3, 3);
+                    for r in 0..n {
+                        p[i][r] += c * p[j][r];
+                    }
+                }
+            }
+            // row scalings by powers of two; the determinant is 2^(sum of exponents), exactly
+            let class = d.int(0, 4);
+            let total: i64 = match class {
+                0 | 1 => d.int(-40, 40),
+                2 => d.int($sub_lo, $sub_hi),
+                3 => d.int($under - 60, $under),
+                _ => d.int($huge, $huge + 20),
+            };
+            let mut exps = vec![0i64; n];
+            let mut rest = total;
+            for r in 0..n - 1 {
+                let e = rest / (n - r) as i64 + d.int(-8, 8);
+                exps[r] = e;
+                rest -= e;
+            }
+            exps[n - 1] = rest;
+            let t = RM::<F>::from_fn(n, |c, r| (p[c][r] as F) * (2.0 as F).powi(exps[r] as i32));
+            d.note("n, row exponents", &(n, exps.clone()));
+            d.note("M", &t);
+            macro_rules! go {
+                ($mk:ident) => {{
+                    let m = $mk(&t);
+                    let det = m.determinant();
+                    let inv = m.invert();
+                    d.note("determinant()", &det);
+                    ensure!(inv.is_none() == (det == 0.0), "invert-none-iff-det-zero",
+                        "invert() is {} but determinant() = {:e}", if inv.is_none() { "None" } else { "Some" }, det);
+                    if let (Some(ni), true) = (inv, class <= 1) {
+                        let e = (m * ni).rm().max_abs_diff(&RM::ident(n));
+                        ensure!(e <= 1e-4, "M*N=I-native", "M * invert(M) differs from I by {:e}", e);
+                    }
+                    det
+                }};
+            }
+            let det: F = match n {
+                2 => go!(mk_m2),
+                3 => {
+                    let m = mk_m3(&t);
+                    let pres = m.invert().is_some();
+                    ensure!(Transform::<Point2<F>>::inverse_transform(&m).is_some() == pres, "m3-2d-inverse_transform-presence", "Matrix3 (2-D) inverse_transform presence differs from invert()");
+                    ensure!(Transform::<Point3<F>>::inverse_transform(&m).is_some() == pres, "m3-3d-inverse_transform-presence", "Matrix3 (3-D) inverse_transform presence differs from invert()");
+                    go!(mk_m3)
+                }
+                _ => {
+                    let m = mk_m4(&t);
+                    ensure!(Transform::<Point3<F>>::inverse_transform(&m).is_some() == m.invert().is_some(), "m4-inverse_transform-presence", "Matrix4 inverse_transform presence differs from invert()");
+                    go!(mk_m4)
+                }
+            };
+            let cls = if det == 0.0 {
+                "determinant-underflowed-to-zero"
+            } else if !det.is_finite() {
+                "determinant-overflowed"
+            } else if !det.is_normal() {
+                "subnormal-determinant"
+            } else if det.abs() > 1e30 {
+                "huge-determinant"
+            } else {
+                "ordinary"
+            };
+            pass(cls, true)
+        }
+    };
+}
+invert_native!(invert_native_f64, f64, -1070, -1030, -1090, 900);
+invert_native!(invert_native_f32, f32, -147, -128, -160, 100);
+
 const RULE_INV: &str = "dense invertible (all entries and all first minors non-zero), or one of the constructed singular / low-rank / tiny-determinant classes";
 const RULE_D: &str = "all entries of A and B non-zero and det A != 0";
 const RULE_T: &str = "all entries non-zero, neither operand symmetric";
@@ -319,6 +408,9 @@ pub fn property() -> Property {
     dim!(d4, "4");
     s.push(sc!("inverse_transform-Q", "Q", inverse_transform::<Q>, 3000, 200_000, 224, &[("both-invertible", 50), ("both-singular", 20), ("mixed", 50)], "all entries of both matrices non-zero", false));
     s.push(sc!("inverse_transform-Fp", "Fp", inverse_transform::<Fp>, 3000, 200_000, 224, &[("both-invertible", 50)], "all entries of both matrices non-zero", false));
+    const NAT: &[(&str, u32)] = &[("ordinary", 200), ("subnormal-determinant", 50), ("determinant-underflowed-to-zero", 50), ("huge-determinant", 50)];
+    s.push(sc!("invert_native-f64", "f64", invert_native_f64, 6000, 400_000, 64, NAT, "every generated matrix; determinant classes ordinary / subnormal / underflowed to zero / huge required", false));
+    s.push(sc!("invert_native-f32", "f32", invert_native_f32, 6000, 400_000, 64, NAT, "every generated matrix; determinant classes ordinary / subnormal / underflowed to zero / huge required", false));
     Property {
         id: "C02",
         title: "Inverse, determinant and transpose obey the laws of linear algebra",
@@ -326,6 +418,7 @@ pub fn property() -> Property {
         assumptions: &[
             "exact tiers Q and Fp stand in for 'a field'; singular / low-rank / tiny-determinant matrices are constructed, not waited for",
             "in Q, ulps-equality degenerates to equality, so is_invertible() must equal det != 0",
+            "native tier: matrices diag(2^a) * U with U unimodular, so the exact determinant is a power of two of any size; invert() must be None exactly when cgmath's own determinant() (decided exactly above) is 0.0",
             "memory safety of the unchecked lane reads in the 4x4 determinant and of ptr::swap is only exercised here; the ASan build of the fuzz target is the oracle for it (thorough tier)",
         ],
         fuzz: true,
